@@ -63,7 +63,14 @@ func c29Writer(fs *Facts, f *File, ty *File) {
 			writes = append(writes, c29Norm(f, c.Args[0]))
 		}
 	}
-	fs.Tri("writesNameAfterHeader", TriOf(len(writes) == 2 && writes[0] == "fw.header.Serialize()" && writes[1] == "nameBytes"), where)
+	// the name bytes directly behind the 64 header bytes: two writes, or one write of header ++ name
+	switch {
+	case len(writes) == 2 && writes[0] == "fw.header.Serialize()" && writes[1] == "nameBytes",
+		len(writes) == 1 && writes[0] == "append(fw.header.Serialize(),nameBytes...)":
+		fs.Tri("writesNameAfterHeader", Yes, where)
+	default:
+		fs.Tri("writesNameAfterHeader", Unknown, where) // another layout: not recognised (never "no")
+	}
 	// guard before os.Create
 	guard := false
 	for _, is := range c04Ifs(f, fd.Body) {
@@ -91,12 +98,12 @@ func c29Types(fs *Facts, f *File) {
 			zero = true
 		}
 	}
-	fs.Tri("v2ZeroesNameLength", TriOf(zero), c01Types+":"+itoa(f.Line(de)))
+	fs.Tri("v2ZeroesNameLength", ShapeTri(zero), c01Types+":"+itoa(f.Line(de)))
 	ds := f.Func("FileHeader", "DataStartOffset")
 	body := c29Norm(f, ds.Body)
 	ok := strings.Contains(body, "ifh.Version==Version3{returnint64(FileHeaderSize)+int64(h.NameLength)}") &&
 		strings.HasSuffix(strings.TrimSuffix(body, "}"), "returnint64(FileHeaderSize)")
-	fs.Tri("dataStartUsesNameLength", TriOf(ok), c01Types+":"+itoa(f.Line(ds)))
+	fs.Tri("dataStartUsesNameLength", ShapeTri(ok), c01Types+":"+itoa(f.Line(ds)))
 }
 
 func c29Reader(fs *Facts, f *File) {
@@ -115,7 +122,7 @@ func c29Reader(fs *Facts, f *File) {
 			guard = true
 		}
 	}
-	fs.Tri("nameReadGuardedByV3", TriOf(guard), c01Reader+":"+itoa(f.Line(nr)))
+	fs.Tri("nameReadGuardedByV3", ShapeTri(guard), c01Reader+":"+itoa(f.Line(nr)))
 	rs := f.Func("", "ReadSwampName")
 	body := c29Norm(f, rs.Body)
 	v3ret := strings.Contains(body, "iffr.header.IsV3(){returnfr.swampName,nil}")
@@ -124,7 +131,7 @@ func c29Reader(fs *Facts, f *File) {
 	case !v3ret:
 		fs.Tri("v2Fallback", Unknown, c01Reader+":"+itoa(f.Line(rs)))
 	default:
-		fs.Tri("v2Fallback", TriOf(fallback), c01Reader+":"+itoa(f.Line(rs)))
+		fs.Tri("v2Fallback", Tri3(fallback, !strings.Contains(body, "LoadIndex")), c01Reader+":"+itoa(f.Line(rs)))
 	}
 	li := f.Func("FileReader", "LoadIndex")
 	lb := c29Norm(f, li.Body)
@@ -137,7 +144,7 @@ func c29Reader(fs *Facts, f *File) {
 		}
 		return true
 	})
-	fs.Tri("loadIndexMetaFallback", TriOf(meta && key), c01Reader+":"+itoa(f.Line(li)))
+	fs.Tri("loadIndexMetaFallback", ShapeTri(meta && key), c01Reader+":"+itoa(f.Line(li)))
 }
 
 func c29Scan(fs *Facts, f *File) {
@@ -151,11 +158,18 @@ func c29Scan(fs *Facts, f *File) {
 	fb := strings.Contains(b, "swampName:=reader.GetSwampName()") && strings.Contains(b, `ifswampName==""{`) &&
 		strings.Contains(b, "ifentry.Operation==v2.OpMetadata&&entry.Key==v2.MetadataEntryKey{swampName=string(entry.Data)returnfalse") &&
 		strings.Contains(b, `ifswampName==""{`) && strings.Contains(b, "returnnil,nil")
-	sp := strings.Contains(b, `parts:=strings.SplitN(swampName,"/",3)`) && strings.Contains(b, "iflen(parts)!=3{") &&
+	sp := strings.Contains(b, `parts:=strings.SplitN(swampName,"/",3)`) && (strings.Contains(b, "iflen(parts)!=3{") || strings.Contains(b, "iflen(parts)<3{")) &&
 		strings.Contains(b, "Sanctuary:parts[0],Realm:parts[1],Swamp:parts[2]")
 	where := c29Scanner + ":" + itoa(f.Line(fd))
-	fs.Tri("scanFallback", TriOf(fb), where)
-	fs.Tri("scanSplits3", TriOf(sp), where)
+	unkIfNot := func(name string, ok bool) {
+		if ok {
+			fs.Tri(name, Yes, where)
+		} else {
+			fs.Tri(name, Unknown, where) // unrecognised is unknown, never "no"
+		}
+	}
+	unkIfNot("scanFallback", fb)
+	unkIfNot("scanSplits3", sp)
 }
 
 // c29OpenAndRescan: openExistingFile re-creates a file shorter than header (+ name); Explorer.Scan
@@ -165,7 +179,7 @@ func c29OpenAndRescan(fs *Facts, wr *File) {
 	if wr != nil {
 		if fd := wr.Func("FileWriter", "openExistingFile"); fd != nil {
 			b := c29Norm(wr, fd.Body)
-			rec = TriOf(strings.Contains(b, "ifinfo.Size()<FileHeaderSize{file.Close()returnfw.createNewFile()}") &&
+			rec = ShapeTri(strings.Contains(b, "ifinfo.Size()<FileHeaderSize{file.Close()returnfw.createNewFile()}") &&
 				strings.Contains(b, "ifinfo.Size()<fw.header.DataStartOffset(){") &&
 				strings.Count(b, "returnfw.createNewFile()") == 2)
 		}
@@ -176,10 +190,38 @@ func c29OpenAndRescan(fs *Facts, wr *File) {
 	if f, err := Load(ex); err == nil {
 		if fd := f.Func("Explorer", "Scan"); fd != nil {
 			clears, scans := f.Calls(fd.Body, "e.idx.clear"), f.Calls(fd.Body, "e.scanDirectory")
-			clr = TriOf(len(clears) == 1 && len(scans) == 1 && clears[0].Pos() < scans[0].Pos())
+			clr = Tri3(len(clears) == 1 && len(scans) == 1 && clears[0].Pos() < scans[0].Pos(), len(clears) == 0 && len(scans) == 1)
 		}
 	} else {
 		fs.Err("%v", err)
 	}
 	fs.Tri("scanClearsIndex", clr, ex)
+	// the TUI opening a realm: all swamps (ListAllSwamps, or ListSwamps inside a loop that advances Offset),
+	// or one ListSwamps call whose Limit the explorer clamps to 1000
+	const tui = "app/hydraidectl/cmd/explore/model.go"
+	t := Unknown
+	if f, err := Load(tui); err == nil {
+		if fd := f.Func("Model", "drillDown"); fd != nil {
+			inLoop, single := false, 0
+			ast.Inspect(fd.Body, func(x ast.Node) bool {
+				if fr, ok := x.(*ast.ForStmt); ok {
+					if len(f.Calls(fr.Body, "m.explorer.ListSwamps")) == 1 && f.Contains(fr.Body, "Offset") {
+						inLoop = true
+					}
+				}
+				return true
+			})
+			single = len(f.Calls(fd.Body, "m.explorer.ListSwamps"))
+			all := len(f.Calls(fd.Body, "m.explorer.ListAllSwamps"))
+			switch {
+			case inLoop || (all == 1 && single == 0):
+				t = Yes
+			case single == 1 && all == 0:
+				t = No
+			}
+		}
+	} else {
+		fs.Err("%v", err)
+	}
+	fs.Tri("tuiListsAll", t, tui)
 }
